@@ -42,9 +42,9 @@ func runC06(run *common.Run) {
 				time.Sleep(2 * time.Millisecond)
 			}
 		})
-		for round := 0; round < run.N(2, 30) && !run.TooMany(); round++ {
+		for round := 0; round < run.N(3, 30) && !run.TooMany(); round++ {
 			if run.Want("round", round) {
-				c18Round(run, round, "btree", run.N(8, 20))
+				c18Round(run, round, "btree", run.N(10, 20))
 			}
 		}
 		bttest.VerifSetHandler(nil)
